@@ -204,6 +204,39 @@ def run_property(prop, tier, seed, opts):
         from frame import analyses
         frame_cov = analyses.run(rep, cfg["frame"], D.REPO, known, tier)
 
+    # ---- 4b. thorough tier: mutation self-test of contract strength + second-solver re-discharge --------
+    selftest = None
+    recheck = None
+    if tier == "thorough" and not opts.only and l1 and not rep.violations:
+        from . import selftest as ST
+        try:
+            selftest = ST.run(l1, tier, seed, per_function=int(os.environ.get("VERIF_MUTANTS", "8")))
+        except Exception as e:
+            rep.errors.append(f"self-test crashed: {e}\n{traceback.format_exc()}")
+        # every discharged obligation is re-checked by a second solver; a disagreement (sat) is a checker failure
+        from . import discharge as DD
+        todo = []
+        for r in results:
+            for o in r.get("obls", []):
+                if o.status == "unsat" and o.smt2 and o.solver:
+                    todo.append(o)
+        agree = disagree = undecided2 = 0
+
+        def second(o):
+            idx = 1 if o.solver.startswith("z3-5") else 0
+            return o, DD.run_solver(idx, o.smt2, 20)
+        with ThreadPoolExecutor(max_workers=16) as ex:
+            for o, (name, res, out_, dt) in ex.map(second, todo):
+                if res == "unsat":
+                    agree += 1
+                elif res == "sat":
+                    disagree += 1
+                    rep.errors.append(f"solver disagreement on {o.group}: {o.solver} unsat, {name} sat")
+                else:
+                    undecided2 += 1
+        recheck = {"rechecked": len(todo), "second_solver_unsat": agree, "second_solver_undecided": undecided2,
+                   "disagreements": disagree}
+
     # ---- 5. known findings that did not show up (still print if witness fails) --------
     # (a KNOWN-FINDING line is printed only when the listed witness still fails)
 
@@ -238,6 +271,12 @@ def run_property(prop, tier, seed, opts):
     }
     if frame_cov is not None:
         cov["frame"] = frame_cov
+    if selftest is not None:
+        cov["mutation_selftest"] = selftest
+        cov["mutation_selftest_note"] = ("AST mutants of the functions under L1 contracts on a scratch copy: killed_by_proof = some "
+                                         "obligation no longer discharges; survivors are weak-contract / equivalent-mutant reports")
+    if recheck is not None:
+        cov["second_solver_recheck"] = recheck
     if level != "proof":
         cov["evaluations"] = sum(b.get("pre_true", 0) for b in bounded_cov) + (frame_cov or {}).get("sites", 0)
         cov["distinct_nontrivial"] = sum(b.get("distinct", 0) for b in bounded_cov) + (frame_cov or {}).get("sites", 0)
